@@ -2,7 +2,8 @@ package raft
 
 // vh_EL: one run of election() (the body of electionLoop) from an arbitrary node state (L1),
 // followed by the spawned sendRequestVote goroutines up to their send (background mode).
-// Obligations: C02.cand / C02.send, C07.req, C08.persistFirst, C09|C16.nonvoter, C16.noBump.
+// Obligations: C02.cand / C02.send, C07.req, C08.persistFirst, C09|C16.nonvoter, C16.noBump, C16.isolated
+// (two further timeouts of the same, cut-off node).
 
 func vh_EL() {
 	ids := []string{"n1", "n2", "n3"}
@@ -16,8 +17,9 @@ func vh_EL() {
 	// N4': a candidate voted for itself (it entered the term through becomeCandidate) unless it has
 	// only just won a prevote (state set to Candidate by sendRequestVote, campaign not yet started)
 	pre := vSnapshotNode(n)
-	selfVoter := r.isVoter("n1")
-	single := r.isSingleServerCluster()
+	selfVoter := vRefIsVoter(r.configuration, "n1")
+	// the only voter of the configuration (whatever non-voting members there are) is its own majority
+	single := selfVoter && vRefVoters(r.configuration, ids) == 1
 	vTagBool("selfVoter", selfVoter)
 	vTagBool("single", single)
 	vTagBool("recent", recent)
@@ -46,17 +48,20 @@ func vh_EL() {
 		vAssert(post.writes == pre.writes, "C16.no-write-when-idle")
 		return
 	}
-	// the term grows only by a real candidacy (state Candidate on entry), by exactly one, with a durable self-vote
-	if pre.state == Candidate {
+	// the term grows only by a candidacy: by exactly one, with a durable self-vote, and election() itself starts
+	// one only for a single voter (its own quorum) or to complete the hand-off of a prevote that was just won
+	// (state Candidate on entry); every other timeout starts a prevote round, which changes nothing durable
+	if midTerm != pre.term {
 		vCover("candidacy")
 		vAssert(midTerm == pre.term+1, "C02|C16.candidacy-increments-term-by-one")
 		vAssert(vAnd(r.votedFor == "n1", vAnd(midDurVote == "n1", midDurTerm == pre.term+1)), "C02|C08.candidacy-self-vote-durable")
+		vAssert(single || pre.state == Candidate, "C16.no-term-bump-without-prevote-quorum")
 	} else {
 		vCover("prevote-round")
-		vAssert(single || midTerm == pre.term, "C16.no-term-bump-without-prevote-quorum")
-		vAssert(single || vAnd(r.votedFor == pre.votedFor, post.writes == pre.writes), "C08|C16.prevote-round-keeps-vote")
-		vAssert(single || midState == PreCandidate, "C16.prevote-round-state")
+		vAssert(vAnd(r.votedFor == pre.votedFor, post.writes == pre.writes), "C08|C16.prevote-round-keeps-vote")
+		vAssert(midState == PreCandidate, "C16.prevote-round-state")
 	}
+	vAssert(vImplies(single, midState == Leader), "C15.sole-voter-elects-itself")
 	if midState == Leader {
 		vCover("became-leader")
 		vAssert(single, "C02.only-single-voter-wins-without-votes")
@@ -99,4 +104,17 @@ func vh_EL() {
 		vAssert(vAnd(s.rv.LastLogIndex == post.lastIndex, s.rv.LastLogTerm == post.lastTerm), "C07.request-carries-real-last-entry")
 	}
 	vCoverIf(want > 0, "requests-sent")
+	// C16.isolated: the node stays cut off (every send fails, no reply ever arrives) while its election timer
+	// fires twice more. Without a prevote quorum its term must not move; the only increment there may be is the
+	// candidacy of a prevote that had been won before the node was cut off.
+	for i := 0; i < 2; i++ {
+		r.mu.Lock()
+		r.election()
+		r.mu.Unlock()
+		vDrain()
+	}
+	vAssert(r.currentTerm <= pre.term+1, "C16.isolated-node-term-grows-at-most-once")
+	vAssert(vImplies(pre.state != Candidate, r.currentTerm == pre.term), "C16.isolated-node-without-prevote-quorum-keeps-term")
+	vAssert(vAnd(n.st.term == r.currentTerm, n.st.vote == r.votedFor), "C02|C08.persisted(N3)")
+	vCover("isolated-timeouts")
 }
